@@ -126,6 +126,7 @@ def generate(rng, tier):
         yield ('exhaustive-12ops-len4-async-start', cases)
     n = 5000 if tier == 'quick' else 100000
     yield ('random-histories', [random_case(rng) for _ in range(n)])
+    yield ('remove-by-matcher', matcher_cases(rng, 300 if tier == 'quick' else 5000))
 
 
 # ---------------------------------------------------------------------------------------------
@@ -133,6 +134,29 @@ def generate(rng, tier):
 
 class Outside(Exception):
     pass
+
+
+NO_MODEL = ('remove-by-matcher',)   # the generic matcher form of remove_resource_id is outside the Gallina model (it removes by id)
+
+
+def matcher_cases(rng, n):
+    """remove_resource_id with a caller-defined matcher (T: PartialEq<ResourceId>) that equals SEVERAL stored ids: all of them go"""
+    cases = []
+    pool = [b'browser/menu', b'browser/tabs', b'browser/x', b'toolkit/about', b'toolkit/b', b'main']
+    for _ in range(n):
+        start = [[v, rng.choice([b'r', b'o'])] for v in rng.sample(pool, rng.randint(1, 5))]
+        ops = []
+        for _ in range(rng.randint(2, 6)):
+            r = rng.random()
+            if r < 0.35:
+                ops.append([b'rmprefix', rng.choice([b'browser/', b'toolkit/', b'b', b'', b'main', b'zzz'])])
+            elif r < 0.55:
+                ops.append([b'add', [rng.choice(pool), rng.choice([b'r', b'o'])]])
+            else:
+                ops.append([b'bundles'])
+        ops.append([b'bundles'])
+        cases.append(sexp.dumps([b'c18', rng.choice([b'sync', b'async']), rng.choice(LOCS), start, ops]))
+    return cases
 
 
 def expected(case):
@@ -175,6 +199,11 @@ def expected(case):
             out.append(b'u')
         elif t == b'rm':
             ids.pop(op[1][0], None)
+            current = None
+            out.append([b'len', len(ids)])
+        elif t == b'rmprefix':
+            for v in [v for v in ids if v.startswith(op[1])]:
+                ids.pop(v)
             current = None
             out.append([b'len', len(ids)])
         elif t == b'rms':
